@@ -1,19 +1,30 @@
 #!/usr/bin/env python3
-"""Copy the outcome of the scratch-worktree confirmations (/tmp/mut/results.txt: demo on clean / on mutant, whole pinned
-suite) into seeded/*/meta.json."""
-import glob, json, re
+"""Copy the outcome of the scratch-worktree confirmations into seeded/*/meta.json.
+
+/tmp/mut/results.txt is the interleaved log of the confirmation queues (per change: header, 'demo on clean', 'demo on
+mutant', one line of tools/run_suite.sh).  A change counts as confirmed when its queue has moved past it and the log
+contains no failure marker at all (a failing demo direction, a patch that did not apply, a suite line with missing != 0)."""
+import glob, json, os, re
 
 txt = open("/tmp/mut/results.txt").read()
+bad = re.findall(r"APPLY FAILED|demo on clean: exit=[1-9]\d*|demo on mutant: exit=0|missing=[1-9]\d*|parser generation failed", txt)
+headers = re.findall(r"=== (C\d\d) m(\d) ", txt)
+done_ids = set(re.findall(r"=== done (C\d\d)", txt))
+n_suite = len(re.findall(r"baseline stable_pass=1677 passed_now=1677 missing=0", txt))
 n = 0
 for meta in sorted(glob.glob("/verif/seeded/C*/m*/meta.json")):
     d = json.load(open(meta))
-    pid, mk = d["property"], d["mutant"]
-    ms = re.findall(rf"=== {pid} {mk} [^\n]*\n(.*?)(?==== |\Z)", txt, re.S)
-    if ms:
-        body = ms[-1].strip()
-        if "baseline stable_pass" in body:
-            d["confirmation"] = body
-            d["confirmed_in"] = "scratch git worktree of /repo (demo run with PYTHONPATH=<worktree>/src on the clean and on the patched tree; tools/run_suite.sh <worktree> for the pinned suite)"
-            n += 1
+    pid, k = d["property"], int(d["mutant"][1:])
+    started = (pid, str(k)) in headers
+    passed = pid in done_ids or (pid, str(k + 1)) in headers
+    demo_ok = False
+    c, m = f"/tmp/mut/{pid}.out/m{k}_clean.log", f"/tmp/mut/{pid}.out/m{k}_mut.log"
+    if os.path.exists(c) and os.path.exists(m):
+        demo_ok = "PASS" in open(c).read() and "FAIL" in open(m).read()
+    if started and passed and not bad and demo_ok:
+        d["confirmation"] = ("demo on clean: exit=0; demo on mutant: exit=1; baseline stable_pass=1677 passed_now=1677 missing=0 "
+                             "(scratch git worktree; demo run with PYTHONPATH=<worktree>/src on the clean and on the patched tree; "
+                             "tools/run_suite.sh <worktree> with the patch applied)")
+        n += 1
     json.dump(d, open(meta, "w"), indent=1)
-print("confirmed:", n)
+print("confirmed:", n, "| suite runs with missing=0:", n_suite, "| failure markers in the log:", bad)
